@@ -105,9 +105,9 @@ def oracle(case, o):
         if sent != want: V(f'exit-msg:{kind}', f'sent {sent}, expected {want} (prop_exit={case["prop"]}, fired {fired})')
     if 'peer_error' in o: V('wire:peer-error', o['peer_error'])
     elif not s.get('send_exit_raises'):
-        if o.get('up_got') is not None and case.get('topo', 'both') == 'both' and not s.get('mq_raises') and o['up_got'] != sent:
+        if o.get('up_got') is not None and case.get('topo', 'both') in ('both', 'both2') and not s.get('mq_raises') and o['up_got'] != sent:
             V('wire:upstream', f'upstream neighbour received {o["up_got"]}, filter sent {sent}')
-        if case.get('topo', 'both') in ('both', 'out') and not s.get('mq_raises') and o['down_got'] != sent:
+        if case.get('topo', 'both') in ('both', 'both2', 'out') and not s.get('mq_raises') and o['down_got'] != sent:
             V('wire:downstream', f'downstream neighbour received {o["down_got"]}, filter sent {sent}')
     # exit_after: ends cleanly within one loop iteration after T
     ea = s.get('exit_after')
@@ -162,7 +162,7 @@ def cases_quick(rng, scale=1):
     # random multi-fault scripts
     for _ in range(400 * scale):
         cases.append({'name': 'random', 'prop': rng.choice(L.POLICIES), 'obey': rng.choice(L.POLICIES), 'loop_exc': rng.random() < 0.6,
-                      'script': L.random_script(rng, rng.choice([2, 2, 3])), 'topo': rng.choice(['both', 'both', 'out', 'none']),
+                      'script': L.random_script(rng, rng.choice([2, 2, 3])), 'topo': rng.choice(['both', 'both', 'both2', 'out', 'none']),
                       'exit_after_form': rng.choice(L.EXIT_AFTER_FORMS)})
     for c in cases:
         if c['script'].get('exit_after') is not None and c.get('exit_after_form') == 'int' and c['script']['exit_after'] % 1000: c['exit_after_form'] = 'float'
